@@ -209,7 +209,7 @@ func Committee(t *rapid.T) (cfg bs.Config, mode string, g1, g2 []int) {
 			break
 		}
 	}
-	cfg = bs.Config{Power: power, Byz: byz, Height: uint64(rapid.IntRange(1, 3).Draw(t, "height")), RootHeight: uint64(rapid.IntRange(3, 9).Draw(t, "root")),
+	cfg = bs.Config{Power: power, Byz: byz, Height: uint64(rapid.SampledFrom([]int{1, 2, 3, 5, 8, 12, 15}).Draw(t, "height")), RootHeight: uint64(rapid.IntRange(3, 9).Draw(t, "root")),
 		Seed: rapid.Uint64Range(0, 1<<20).Draw(t, "seed")}
 	return
 }
